@@ -170,6 +170,16 @@ def run(ctx):
                 if idx.get("k") == "path" and "local" in idx["res"]:
                     src = find_let_init(body, idx["res"]["local"], n["ln"])
                 pc = position_closure(src) if src else None
+                if not pc and src is not None:
+                    # the index may be computed by a local helper: look at what that helper returns
+                    s2 = hirq.strip(src)
+                    callee = s2.get("fn") if s2.get("k") in ("call", "mcall") else None
+                    helper = next((g for g in mpq.fn_list if callee and g.path == callee and g.hir), None)
+                    if helper is not None:
+                        hb = hirq.strip(helper.hir["body"])
+                        while hb.get("k") == "block" and not hb.get("stmts") and hb.get("e"):
+                            hb = hirq.strip(hb["e"])
+                        pc = position_closure(hb)
                 key = "%s|insert" % f.path
                 if not pc:
                     ctx.bad(R_ins, key + "|index-source", where, "insertion index `%s` is not position(pred).unwrap_or(len)" % hirq.render(idx),
